@@ -213,4 +213,182 @@ theorem recompile_as_is_exitFree_closed (ss : List Stmt) (hwf : wfList ss = true
     simp only
     exact ih _ _ (unlabelled_append _ _ a3 a2)
 
+/-! what a compilation does to the label slots of the parsed AST -/
+
+theorem take_drop_one (sl : Slots) (h : 1 ≤ sl.length) : [headSlot sl] = sl.take 1 ∧ sl.tail = sl.drop 1 := by
+  cases sl with
+  | nil => simp at h
+  | cons o r => simp [headSlot]
+
+mutual
+  theorem expandA_repaired_slots : ∀ (cb : Option (Lbl × Lbl)) (ss : List Stmt) (sl : Slots) (c : Nat), nslots ss ≤ sl.length →
+      (expandA false cb ss sl c).2.1 = sl.take (nslots ss) ∧ (expandA false cb ss sl c).2.2 = sl.drop (nslots ss)
+    | cb, [], sl, c, _ => by
+      unfold expandA nslots; simp
+    | cb, s :: r, sl, c, h => by
+      unfold nslots at h
+      obtain ⟨a1, a2⟩ := expandStmtA_repaired_slots cb s sl c (by omega)
+      obtain ⟨b1, b2⟩ := expandA_repaired_slots cb r (expandStmtA false cb s sl c).2.2 (expandStmtA false cb s sl c).1.2
+        (by rw [a2]; simp; omega)
+      unfold expandA nslots
+      simp only
+      rw [b1, b2, a1, a2]
+      refine ⟨?_, by rw [List.drop_drop]⟩
+      rw [List.take_add]
+  theorem expandStmtA_repaired_slots : ∀ (cb : Option (Lbl × Lbl)) (s : Stmt) (sl : Slots) (c : Nat), nslotsStmt s ≤ sl.length →
+      (expandStmtA false cb s sl c).2.1 = sl.take (nslotsStmt s) ∧ (expandStmtA false cb s sl c).2.2 = sl.drop (nslotsStmt s)
+    | cb, .brk, sl, c, h => by
+      unfold nslotsStmt at h
+      unfold expandStmtA nslotsStmt
+      simpa using take_drop_one sl h
+    | cb, .cont, sl, c, h => by
+      unfold nslotsStmt at h
+      unfold expandStmtA nslotsStmt
+      simpa using take_drop_one sl h
+    | cb, .whileS b, sl, c, h => by
+      unfold nslotsStmt at h
+      obtain ⟨a1, a2⟩ := expandA_repaired_slots (some (("_while_begin_", c), ("_while_end_", c))) b sl (c + 1) h
+      unfold expandStmtA nslotsStmt
+      exact ⟨a1, a2⟩
+    | cb, .ifS t f, sl, c, h => by
+      unfold nslotsStmt at h
+      obtain ⟨a1, a2⟩ := expandA_repaired_slots cb t sl (c + 2) (by omega)
+      obtain ⟨b1, b2⟩ := expandA_repaired_slots cb f (expandA false cb t sl (c + 2)).2.2 (expandA false cb t sl (c + 2)).1.2
+        (by rw [a2]; simp; omega)
+      unfold expandStmtA nslotsStmt
+      by_cases hf : f.isEmpty = true
+      · have hf0 : nslots f = 0 := by
+          cases f with
+          | nil => unfold nslots; rfl
+          | cons x y => simp at hf
+        simp only [hf, if_true, hf0, Nat.add_zero]
+        exact ⟨a1, a2⟩
+      · have hf' : f.isEmpty = false := by simpa using hf
+        simp only [hf', Bool.false_eq_true, if_false]
+        rw [b1, b2, a1, a2]
+        refine ⟨?_, by rw [List.drop_drop]⟩
+        rw [List.take_add]
+    | cb, .send, sl, c, _ => by unfold expandStmtA nslotsStmt; simp
+    | cb, .matchEv, sl, c, _ => by unfold expandStmtA nslotsStmt; simp
+    | cb, .assign, sl, c, _ => by unfold expandStmtA nslotsStmt; simp
+    | cb, .other k, sl, c, _ => by unfold expandStmtA nslotsStmt; simp
+    | cb, .ret, sl, c, _ => by unfold expandStmtA nslotsStmt; simp
+    | cb, .abort, sl, c, _ => by unfold expandStmtA nslotsStmt; simp
+    | cb, .matchG d, sl, c, _ => by unfold expandStmtA nslotsStmt; simp
+    | cb, .sendG d, sl, c, _ => by unfold expandStmtA nslotsStmt; simp
+    | cb, .startS d, sl, c, _ => by unfold expandStmtA nslotsStmt; simp
+    | cb, .awaitOne k rv, sl, c, _ => by unfold expandStmtA nslotsStmt; simp
+    | cb, .awaitG d, sl, c, _ => by unfold expandStmtA nslotsStmt; simp
+    | cb, .activateS n, sl, c, _ => by unfold expandStmtA nslotsStmt; simp
+    | cb, .deactivateS n, sl, c, _ => by unfold expandStmtA nslotsStmt; simp
+    | cb, .nld, sl, c, _ => by unfold expandStmtA nslotsStmt; simp
+    | cb, .whenS specs thens els hasElse, sl, c, _ => by unfold expandStmtA nslotsStmt; simp
+end
+
+/-- the repaired compiler leaves the parsed AST exactly as it found it -/
+theorem expandA_repaired_ast_unchanged (cb : Option (Lbl × Lbl)) (ss : List Stmt) (sl : Slots) (c : Nat)
+    (h : nslots ss ≤ sl.length) : (expandA false cb ss sl c).2.1 ++ (expandA false cb ss sl c).2.2 = sl := by
+  obtain ⟨a1, a2⟩ := expandA_repaired_slots cb ss sl c h
+  rw [a1, a2, List.take_append_drop]
+
+theorem keeps_refl (a : Slots) : Keeps a a := ⟨rfl, fun _ _ h => h⟩
+
+theorem keeps_append (a a' b b' : Slots) (h1 : Keeps a a') (h2 : Keeps b b') : Keeps (a ++ b) (a' ++ b') := by
+  refine ⟨by simp [h1.1, h2.1], ?_⟩
+  intro i l h
+  by_cases hi : i < a.length
+  · rw [List.getElem?_append_left hi] at h
+    rw [List.getElem?_append_left (by rw [← h1.1]; exact hi)]
+    exact h1.2 i l h
+  · have hi' : a.length ≤ i := by omega
+    rw [List.getElem?_append_right hi'] at h
+    rw [List.getElem?_append_right (by rw [← h1.1]; exact hi'), ← h1.1]
+    exact h2.2 _ l h
+
+theorem keeps_one (sl : Slots) (cbl : Option Lbl) (h : 1 ≤ sl.length) :
+    Keeps (sl.take 1) [slotOut cbl (headSlot sl)] ∧ sl.tail = sl.drop 1 := by
+  cases sl with
+  | nil => simp at h
+  | cons o r =>
+    refine ⟨⟨by simp, ?_⟩, by simp⟩
+    intro i l hi
+    cases i with
+    | zero => simp at hi; subst hi; simp [headSlot, slotOut]
+    | succ i => simp at hi
+
+mutual
+  theorem expandA_as_is_keeps : ∀ (cb : Option (Lbl × Lbl)) (ss : List Stmt) (sl : Slots) (c : Nat), nslots ss ≤ sl.length →
+      Keeps (sl.take (nslots ss)) (expandA true cb ss sl c).2.1 ∧ (expandA true cb ss sl c).2.2 = sl.drop (nslots ss)
+    | cb, [], sl, c, _ => by
+      unfold expandA nslots; simp [keeps_refl]
+    | cb, s :: r, sl, c, h => by
+      unfold nslots at h
+      obtain ⟨a1, a2⟩ := expandStmtA_as_is_keeps cb s sl c (by omega)
+      obtain ⟨b1, b2⟩ := expandA_as_is_keeps cb r (expandStmtA true cb s sl c).2.2 (expandStmtA true cb s sl c).1.2
+        (by rw [a2]; simp; omega)
+      unfold expandA nslots
+      simp only
+      refine ⟨?_, by rw [b2, a2, List.drop_drop]⟩
+      rw [List.take_add]
+      refine keeps_append _ _ _ _ a1 ?_
+      rw [← a2]; exact b1
+  theorem expandStmtA_as_is_keeps : ∀ (cb : Option (Lbl × Lbl)) (s : Stmt) (sl : Slots) (c : Nat), nslotsStmt s ≤ sl.length →
+      Keeps (sl.take (nslotsStmt s)) (expandStmtA true cb s sl c).2.1 ∧ (expandStmtA true cb s sl c).2.2 = sl.drop (nslotsStmt s)
+    | cb, .brk, sl, c, h => by
+      unfold nslotsStmt at h
+      unfold expandStmtA nslotsStmt
+      simpa using keeps_one sl (cb.map (·.2)) h
+    | cb, .cont, sl, c, h => by
+      unfold nslotsStmt at h
+      unfold expandStmtA nslotsStmt
+      simpa using keeps_one sl (cb.map (·.1)) h
+    | cb, .whileS b, sl, c, h => by
+      unfold nslotsStmt at h
+      obtain ⟨a1, a2⟩ := expandA_as_is_keeps (some (("_while_begin_", c), ("_while_end_", c))) b sl (c + 1) h
+      unfold expandStmtA nslotsStmt
+      exact ⟨a1, a2⟩
+    | cb, .ifS t f, sl, c, h => by
+      unfold nslotsStmt at h
+      obtain ⟨a1, a2⟩ := expandA_as_is_keeps cb t sl (c + 2) (by omega)
+      obtain ⟨b1, b2⟩ := expandA_as_is_keeps cb f (expandA true cb t sl (c + 2)).2.2 (expandA true cb t sl (c + 2)).1.2
+        (by rw [a2]; simp; omega)
+      unfold expandStmtA nslotsStmt
+      by_cases hf : f.isEmpty = true
+      · have hf0 : nslots f = 0 := by
+          cases f with
+          | nil => unfold nslots; rfl
+          | cons x y => simp at hf
+        simp only [hf, if_true, hf0, Nat.add_zero]
+        exact ⟨a1, a2⟩
+      · have hf' : f.isEmpty = false := by simpa using hf
+        simp only [hf', Bool.false_eq_true, if_false]
+        refine ⟨?_, by rw [b2, a2, List.drop_drop]⟩
+        rw [List.take_add]
+        refine keeps_append _ _ _ _ a1 ?_
+        rw [← a2]; exact b1
+    | cb, .send, sl, c, _ => by unfold expandStmtA nslotsStmt; simp [keeps_refl]
+    | cb, .matchEv, sl, c, _ => by unfold expandStmtA nslotsStmt; simp [keeps_refl]
+    | cb, .assign, sl, c, _ => by unfold expandStmtA nslotsStmt; simp [keeps_refl]
+    | cb, .other k, sl, c, _ => by unfold expandStmtA nslotsStmt; simp [keeps_refl]
+    | cb, .ret, sl, c, _ => by unfold expandStmtA nslotsStmt; simp [keeps_refl]
+    | cb, .abort, sl, c, _ => by unfold expandStmtA nslotsStmt; simp [keeps_refl]
+    | cb, .matchG d, sl, c, _ => by unfold expandStmtA nslotsStmt; simp [keeps_refl]
+    | cb, .sendG d, sl, c, _ => by unfold expandStmtA nslotsStmt; simp [keeps_refl]
+    | cb, .startS d, sl, c, _ => by unfold expandStmtA nslotsStmt; simp [keeps_refl]
+    | cb, .awaitOne k rv, sl, c, _ => by unfold expandStmtA nslotsStmt; simp [keeps_refl]
+    | cb, .awaitG d, sl, c, _ => by unfold expandStmtA nslotsStmt; simp [keeps_refl]
+    | cb, .activateS n, sl, c, _ => by unfold expandStmtA nslotsStmt; simp [keeps_refl]
+    | cb, .deactivateS n, sl, c, _ => by unfold expandStmtA nslotsStmt; simp [keeps_refl]
+    | cb, .nld, sl, c, _ => by unfold expandStmtA nslotsStmt; simp [keeps_refl]
+    | cb, .whenS specs thens els hasElse, sl, c, _ => by unfold expandStmtA nslotsStmt; simp [keeps_refl]
+end
+
+/-- as is: a compilation never changes a label that is already set (it only fills slots that are None) -/
+theorem expandA_as_is_labels_kept (cb : Option (Lbl × Lbl)) (ss : List Stmt) (sl : Slots) (c : Nat)
+    (h : nslots ss ≤ sl.length) : Keeps sl ((expandA true cb ss sl c).2.1 ++ (expandA true cb ss sl c).2.2) := by
+  obtain ⟨a1, a2⟩ := expandA_as_is_keeps cb ss sl c h
+  have := keeps_append _ _ _ _ a1 (keeps_refl (sl.drop (nslots ss)))
+  rw [List.take_append_drop] at this
+  rw [a2]; exact this
+
 end NemoVerif.Expand
